@@ -83,3 +83,16 @@ Definition agree_at (cfg : config) (im : image) (i : nat) (p : list seg) : bool 
 
 (* paths are non-empty lists of ordinary names *)
 Definition path_ok (p : list seg) : bool := match p with [] => false | _ => forallb seg_ok p end.
+
+Definition ve_kind_is_dir (o : option vent) : bool :=
+  match o with Some e => match ve_kind e with SKDir => true | _ => false end | None => false end.
+
+(* ------------------------------------------------------------------ the full positive statement *)
+(* C04 on the domain D (default requirer): every view i, every path p.  Kept visible here as a Prop;
+   Props_C04.v lists what is proved of it (`..._partial`) and what is not. *)
+Definition view_eq_overlay_on_D_statement : Prop :=
+  forall cfg im st, D cfg im = true -> cfg_req cfg = None -> load cfg im = Some st ->
+  forall i p, (i < length (st_chains st))%nat -> path_ok p = true ->
+    impl_lookup st i p = spec_lookup cfg im i p /\
+    impl_content st i p = spec_content cfg im i p /\
+    (ve_kind_is_dir (spec_lookup cfg im i p) = true -> impl_listing st i p = Some (spec_listing cfg im i p)).
